@@ -119,12 +119,23 @@ structure ETx where
   /-- `some es` when `tx.GetTxGroup()` returns a group (2 ≤ gc ≤ 20 and `Header` decodes as a
   `Transactions` message): the `Expire` fields of the decoded transactions. For a member of an
   expanded group `Header` is the 32-byte group hash, which decodes by accident for about 1 in 500
-  hashes — then with no transactions. -/
+  hashes with no transactions, and for about 1 in 6.5 million hashes (`0a <len> …`) with one
+  garbage transaction. -/
   hdr : Option (List Int)
   deriving Repr, DecidableEq
 
-/-- `Transaction.IsExpire`: group path when `GetTxGroup` yields a group. -/
+/-- `Transaction.IsExpire` (after the repair c2f0f61): the group path is taken only when `GetTxGroup`
+yields a group *with at least one transaction*; a `Header` that decodes as an empty message is
+judged by the transaction's own `Expire`. -/
 def ETx.isExpire (txHeightOn : Bool) (height blocktime : Int) (t : ETx) : Bool :=
+  match t.hdr with
+  | some (e :: es) => (e :: es).any (isExpireField txHeightOn height blocktime)
+  | some [] => isExpireField txHeightOn height blocktime t.expire
+  | none => isExpireField txHeightOn height blocktime t.expire
+
+/-- `Transaction.IsExpire` as it was before the repair (kept for the regression statement only):
+any decoded group, even an empty one, took the group path. -/
+def ETx.isExpireOld (txHeightOn : Bool) (height blocktime : Int) (t : ETx) : Bool :=
   match t.hdr with
   | some es => es.any (isExpireField txHeightOn height blocktime)
   | none => isExpireField txHeightOn height blocktime t.expire
